@@ -27,6 +27,18 @@ theorem C09_is_tuple_compare (c : Case) (hb : built c = true) (hg : generated c 
     orderItems_decl c false hf, tupleCmp_eq_declCmp, tupleCmp_eq_declCmp, tupleCmp_trace]
   exact ⟨rfl, rfl, rfl, rfl⟩
 
+/-- **C09_keys_every_comparison**: each call of a generated method on a same-class operand applies the key
+    function of every keyed order-participating field to self's value and then to other's — once each, in
+    field order, whatever the values are and whatever was compared before (the model keeps no memory);
+    with an operand of another class no key function is applied at all. -/
+theorem C09_keys_every_comparison (c : Case) (hb : built c = true) (hg : generated c = true) (op : Op) :
+    keyCalls c (resolve c .C op) =
+      if sameClass c then declKeyTags c ++ declKeyTags c else [] := by
+  cases hs : sameClass c
+  · simp [keyCalls, resolve, status_gen c hg, implOfStatus, rhsKls_other c hs]
+  · simp [keyCalls, resolve, status_gen c hg, implOfStatus, rhsKls_same c hs,
+      keyTags_decl c (built_fields c hb)]
+
 /-- all positions identical or equal ⇒ the tuples are equal: `<`, `>` give False, `<=`, `>=` True,
     whatever the operators of the values would say -/
 theorem C09_tuple_all_equal (op : Op) (its : List Item) (h : ∀ it ∈ its, eqish it = true) :
@@ -216,6 +228,19 @@ theorem C09_nonparticipating_irrelevant (c : Case) (g : Field → Field) (h : On
     exact patch_filter_map g Field.orderPart _ (attrList c b)
       (fun f hf => hpart f (hmem b f hf))
       (fun f hf hp => by rw [(h f (hmem b f hf)).2.2.2.2.2 hp])
+  have hKT : ∀ b, keyTags { c with fields := c.fields.map g } b = keyTags c b := by
+    intro b
+    unfold keyTags
+    rw [hAL b]
+    exact patch_filter_map g (fun f => f.orderPart && f.orderView != .raw) _ (attrList c b)
+      (fun f hf => by simp [Field.orderPart, Field.orderView, hres f (hmem b f hf)])
+      (fun f hf hp => by
+        have hp' : f.orderPart = true := by
+          simp only [Bool.and_eq_true] at hp; exact hp.1
+        rw [(h f (hmem b f hf)).2.2.2.2.2 hp'])
+  have hKC : ∀ impl, keyCalls { c with fields := c.fields.map g } impl = keyCalls c impl := by
+    intro impl
+    cases impl <;> simp [keyCalls, hKT]
   have hRes : ∀ k op, resolve { c with fields := c.fields.map g } k op = resolve c k op := fun _ _ => rfl
   have hSt : ∀ op, statusOf { c with fields := c.fields.map g } op = statusOf c op := fun _ => rfl
   have hCE : clsErr { c with fields := c.fields.map g } = clsErr c := rfl
@@ -230,7 +255,7 @@ theorem C09_nonparticipating_irrelevant (c : Case) (g : Field → Field) (h : On
     simp only [directCall, hCall, hRes]
   have hB : built { c with fields := c.fields.map g } = built c := by
     simp only [built, hCE, hFE]
-  simp only [model, hB, hSt, hBin, hDir, hCE, hFE]
+  simp only [model, hB, hSt, hBin, hDir, hCE, hFE, hKC, hRes]
 
 /-- non-vacuity: such a rewriting exists and does change the case -/
 example : ∃ (c : Case) (g : Field → Field), OnlyNonparticipating g c.fields ∧ c.fields.map g ≠ c.fields :=
@@ -340,6 +365,10 @@ theorem C09_model_meets_spec (c : Case) : spec c (model c) = true := by
       intro op; cases op <;> simp [model, hb, ResQ.get]
     have htr : ∀ op, (model c).trace.get op = (directCall c op).2 := by
       intro op; cases op <;> simp [model, hb, TrQ.get]
+    have hkeys : ∀ op, (model c).keys.get op = keyTags c false ++ keyTags c false := by
+      intro op
+      cases op <;>
+        simp [model, hb, TrQ.get, keyCalls, resolve, status_gen c hg, implOfStatus, rhsKls_same c hs]
     unfold specSame
     simp only [Bool.and_eq_true, List.all_eq_true, Bool.or_eq_true, Bool.not_eq_true', beq_iff_eq]
     obtain ⟨f1, f2, f3, f4⟩ := hfl
@@ -354,9 +383,13 @@ theorem C09_model_meets_spec (c : Case) : spec c (model c) = true := by
     refine ⟨⟨⟨⟨⟨?_, ?_⟩, ?_⟩, ?_⟩, ?_⟩, ?_⟩
     · intro op _
       rw [hdir, hops, hrops, htr, (h op).1, (h op).2.1, (h op).2.2.1, (h op).2.2.2]
-      refine ⟨⟨⟨rfl, rfl⟩, rfl⟩, ?_⟩
-      intro t ht
-      exact List.contains_iff_mem.2 (declTrace_allowed op _ t ht)
+      refine ⟨⟨⟨⟨rfl, rfl⟩, rfl⟩, ?_⟩, ?_⟩
+      · intro t ht
+        exact List.contains_iff_mem.2 (declTrace_allowed op _ t ht)
+      · intro t ht
+        rw [hkeys, keyTags_decl c (built_fields c hb)] at ht
+        apply List.contains_iff_mem.2
+        rcases List.mem_append.1 ht with h' | h' <;> exact h'
     · rw [e1, r3, f1]
     · rw [e2, r4, f2]
     · rw [e3, r1, f3]
@@ -370,7 +403,8 @@ theorem C09_model_meets_spec (c : Case) : spec c (model c) = true := by
   have specOther_model : built c = true → generated c = true → sameClass c = false → specOther (model c) = true := by
     intro hb hg hs
     have h := fun op => C09_notimpl c hg hs op
-    simp [specOther, model, hb, ResQ.all, (h .lt).1, (h .le).1, (h .gt).1, (h .ge).1,
+    have hk := rhsKls_other c hs
+    simp [specOther, model, hb, ResQ.all, keyCalls, resolve, status_gen c hg, implOfStatus, hk, (h .lt).1, (h .le).1, (h .gt).1, (h .ge).1,
       (h .lt).2.1, (h .le).2.1, (h .gt).2.1, (h .ge).2.1, (h .lt).2.2, (h .le).2.2, (h .gt).2.2, (h .ge).2.2]
   unfold spec
   split
